@@ -3,7 +3,7 @@
    uni (Unicode digit/space map of int()) are universally quantified oracles. *)
 From Coq Require Import List NArith ZArith Bool.
 Import ListNotations.
-Require Import Verif.Lib.Wire Verif.Lib.Text Verif.Lib.Utf8 Verif.Lib.C09Base Verif.Gen.Facts_C09 Verif.Model.C09 Verif.Proofs.C09 Verif.Proofs.C09_rt.
+Require Import Verif.Lib.Wire Verif.Lib.Text Verif.Lib.Utf8 Verif.Lib.C09Base Verif.Gen.Facts_C09 Verif.Model.C09 Verif.Proofs.C09 Verif.Proofs.C09_rt Verif.Proofs.C09_more.
 
 (* "no cookie at all is accepted unless its digest field is exactly the keyed digest of its
    other fields": for EVERY cookie text, configuration, address and clock *)
@@ -25,7 +25,7 @@ Theorem C09_accept_fields : forall H dsz uni c r ck0 ts u toks ud,
     /\ toks = Text.split_on comma tk
     /\ encode d = encode (calculate_digest H (hashalg c) ip ts (secret c) uid tk ud)
     /\ decode_userid uni (Text.split_on pipe ud) (VStr uid) = Some u
-    /\ timed_out c ts (now r) = false.
+    /\ timed_out c ts (now2 r) = false.
 Proof. exact accept_fields. Qed.
 Print Assumptions C09_accept_fields.
 
@@ -52,7 +52,7 @@ Print Assumptions C09_reissue_once.
 Theorem C09_reissued_ticket_is_fresh : forall H dsz uni c r hs,
   spec_reissue_ticket H dsz uni c r = Some hs ->
   exists ts u tk ud rt, identify_pre H dsz uni c r = ISome ts u tk ud /\ reissue_time c = Some rt
-    /\ cmp_eval reissue_cmp (now r - ts) rt = true
+    /\ cmp_eval reissue_cmp (now2 r - 2 * ts) (2 * rt) = true
     /\ remember H c r u (max_age c) (filter nonempty tk) = Some hs.
 Proof. exact reissued_ticket_is_fresh. Qed.
 Print Assumptions C09_reissued_ticket_is_fresh.
@@ -94,16 +94,74 @@ Theorem C09_identify_roundtrip : forall H dsz uni c r r' u ma toks hs k v,
   remember H c r u ma toks = Some hs -> In k hs -> ck_value k = Some v ->
   cookie r' = Some v -> eff_ip c r' = eff_ip c r ->
   identify_pre H dsz uni c r' =
-  match spec_issued_identity c (Z.to_N (now r)) u (match toks with [] => [[]] | _ => toks end) (now r') with
+  match spec_issued_identity c (Z.to_N (now r)) u (match toks with [] => [[]] | _ => toks end) (now2 r') with
   | Some (ts, u', tk) => ISome ts u' tk (userid_typename ++ tag_of u)
   | None => INone
   end.
 Proof. exact identify_roundtrip. Qed.
 Print Assumptions C09_identify_roundtrip.
 
+(* clock arguments are twice the clock value: accepted at issue + timeout, rejected at + 0.5 and + 1 *)
 Theorem C09_identify_boundary : forall c t0 u toks t,
   timeout c = Some t -> (0 < t)%Z ->
-  spec_issued_identity c t0 u toks (Z.of_N t0 + t) = Some (Z.of_N t0, u, toks)
-  /\ spec_issued_identity c t0 u toks (Z.of_N t0 + t + 1) = None.
+  spec_issued_identity c t0 u toks (2 * (Z.of_N t0 + t)) = Some (Z.of_N t0, u, toks)
+  /\ spec_issued_identity c t0 u toks (2 * (Z.of_N t0 + t) + 1) = None
+  /\ spec_issued_identity c t0 u toks (2 * (Z.of_N t0 + t + 1)) = None.
 Proof. exact identify_boundary. Qed.
 Print Assumptions C09_identify_boundary.
+
+(* an edit that leaves the parsed fields unchanged (re-cased timestamp digits, %41 for A, added quotes,
+   lenient timestamp spellings) yields the same answer; any other accepted cookie carries the keyed digest
+   of its own fields *)
+Theorem C09_edit_same_or_nothing : forall H dsz uni c r ck ck',
+  (parse_fields dsz uni (hashalg c) ck' = parse_fields dsz uni (hashalg c) ck ->
+   identify_pre H dsz uni c (with_cookie r ck') = identify_pre H dsz uni c (with_cookie r ck))
+  /\ ((forall a x, forallb valid_scalar (H a x) = true) -> forallb valid_scalar ck' = true ->
+      identify_pre H dsz uni c (with_cookie r ck') <> INone ->
+      digest_ok H dsz uni c (with_cookie r ck') ck' = true).
+Proof. exact edit_same_or_nothing. Qed.
+Print Assumptions C09_edit_same_or_nothing.
+
+(* issued under another secret, algorithm (same digest length) or address: accepted only on a collision
+   of the keyed digests of the same fields *)
+Theorem C09_wrong_secret_alg_ip : forall H dsz uni alg ip sec alg' ip' sec' t enc toks ud,
+  (forall a x, length (H a x) = (dsz a * digest_mult)%nat) ->
+  (forall a x, exists c r, H a x = c :: r /\ c <> strip_ch) ->
+  (forall a x, forallb valid_scalar (H a x) = true) ->
+  (t < 4294967296)%N -> is_ascii enc = true ->
+  Forall (fun tk => valid_token tk = true) toks ->
+  ud <> [] -> ~ In bang ud -> last ud 0%N <> strip_ch ->
+  dsz alg' = dsz alg ->
+  parse_ticket H dsz uni sec' (cookie_value H alg ip t sec enc toks ud) ip' alg' <> PBad ->
+  calculate_digest H alg' ip' (Z.of_N t) sec' enc (joined toks) ud
+  = calculate_digest H alg ip (Z.of_N t) sec enc (joined toks) ud.
+Proof. exact wrong_secret_alg_ip. Qed.
+Print Assumptions C09_wrong_secret_alg_ip.
+
+(* the image of remember(): no ticket this helper issues, for any caller-supplied user id / tokens /
+   max_age, can make identify() raise -- in any request state, at any later clock *)
+Theorem C09_issued_ticket_never_raises : forall H dsz uni c r r' u ma toks hs k v st,
+  (forall a x, length (H a x) = (dsz a * digest_mult)%nat) ->
+  (forall a x, exists c r, H a x = c :: r /\ c <> strip_ch) ->
+  (0 <= now r < 4294967296)%Z -> wf_uval u ->
+  remember H c r u ma toks = Some hs -> In k hs -> ck_value k = Some v ->
+  cookie r' = Some v -> eff_ip c r' = eff_ip c r ->
+  snd (identify H dsz uni c r' st) <> IRaise.
+Proof. exact issued_ticket_never_raises. Qed.
+Print Assumptions C09_issued_ticket_never_raises.
+
+(* the hash-oracle protocol of the correspondence run: run_ops (and identify_pre, used for the fed-back
+   cookies) consult H only at the queries listed through msgs_op / msgs_identify *)
+Theorem C09_oracle_complete : forall H H' dsz uni c r ops st,
+  (forall m, In m (flat_map (msgs_op H dsz uni c r) ops) ->
+   forall q, In q (queries_of H (hashalg c) (secret c) m) -> H (fst q) (snd q) = H' (fst q) (snd q)) ->
+  run_ops H dsz uni c r st ops = run_ops H' dsz uni c r st ops.
+Proof. exact oracle_complete. Qed.
+Print Assumptions C09_oracle_complete.
+
+Theorem C09_oracle_complete_identify : forall H H' dsz uni c r,
+  (forall m, In m (msgs_identify dsz uni c r) ->
+   forall q, In q (queries_of H (hashalg c) (secret c) m) -> H (fst q) (snd q) = H' (fst q) (snd q)) ->
+  identify_pre H dsz uni c r = identify_pre H' dsz uni c r.
+Proof. exact identify_pre_agree. Qed.
+Print Assumptions C09_oracle_complete_identify.
